@@ -48,7 +48,7 @@ def ob_key_schedule():
         c = load_crate(CRATE)
         dom = mk_dom()
         def run(ctx):
-            ex = Ex(c, dom, ctx)
+            ex = Ex(c, dom, ctx); ex.merge_pure = True
             W, kb = words_as_bytes("K", 4)
             res = ex.run_fn(c.find("Sm4Cipher::new"), [slice_ref(kb, "key")])
             return W, kb, res, ex
@@ -83,7 +83,7 @@ def ob_crypt(decrypt):
         c = load_crate(CRATE)
         dom = mk_dom()
         def run(ctx):
-            ex = Ex(c, dom, ctx)
+            ex = Ex(c, dom, ctx); ex.merge_pure = True
             rk, cc = sym_cipher(dom)
             W, bb = words_as_bytes("X", 4)
             res = ex.run_fn(c.find("Sm4Cipher::" + nm), [Ref(cc), slice_ref(bb, "block")])
@@ -115,7 +115,7 @@ def ob_roundtrip(first):
         c = load_crate(CRATE)
         dom = mk_dom()
         def run(ctx):
-            ex = Ex(c, dom, ctx)
+            ex = Ex(c, dom, ctx); ex.merge_pure = True
             rk, cc = sym_cipher(dom)
             W, bb = words_as_bytes("X", 4)
             r1 = ex.run_fn(c.find("Sm4Cipher::" + first), [Ref(cc), slice_ref(bb, "block")])
